@@ -65,7 +65,8 @@ class C11(object):
                          'decl.rejected_again_on_a_second_attempt',
                          'switch.failing_period_traced',
                          'reserved_token_in_expression.judged',
-                         'decl.two_candidate_suppliers_one_built_without_F')
+                         'decl.two_candidate_suppliers_one_built_without_F',
+                         'decl.scratch_model_created_during_construction')
 
     def n_cases(self, tier):
         self._names = all_reserved()
@@ -114,6 +115,11 @@ class C11(object):
             text = G.render(spec)
             return {'kind': 'contraction', 'spec': spec, 'text': text, 'tol': tol,
                     'reduction': rng.random() < 0.5}
+        if m == 8 and (idx // 10) % 2 == 0:
+            # an unrelated scratch Model (sometimes with a country and a sector) is created at some point while the ill-formed
+            # model is being put together: it must be refused all the same
+            return {'kind': 'decl', 'which': ['two_suppliers', 'xsupplier_no_ext', 'no_supplier', 'xflow_no_ext'][(idx // 20) % 4],
+                    'n_extra': rng.randint(0, 2), 'scratch_sweep': True}
         if m == 9 and (idx // 10) % 3 == 0:
             # two candidate suppliers, one of them built with has_F=False (constructor arguments away from their defaults)
             return {'kind': 'decl', 'which': 'two_suppliers_one_without_F', 'n_extra': rng.randint(0, 2)}
@@ -124,6 +130,26 @@ class C11(object):
 
     # ------------------------------------------------------------------------------------------
     def run_case(self, case):
+        if case.get('scratch_sweep'):
+            # the scratch model is created right before the object that makes the model ill-formed (and, for the two-country
+            # cases, right after its country), with 0..13 objects of its own: whatever identifiers those objects take, the model
+            # under construction must be refused
+            out = None
+            for after in (8, 9):
+                for n_obj in range(0, 14):
+                    res = self.run_decl(dict(case, scratch_model_after=after, scratch_objects=n_obj))
+                    if out is None:
+                        out = res
+                    else:
+                        for k_, v_ in res.get('counters', {}).items():
+                            out['counters'][k_] = out['counters'].get(k_, 0) + v_
+                    if res['verdict'] == 'violated':
+                        res['counters'] = out['counters']
+                        for v_ in res['violations']:
+                            v_['detail']['scratch_model'] = {'created_after_declaration': after, 'objects_in_it': n_obj}
+                        return res
+            out['evals'] = 28
+            return out
         return getattr(self, 'run_' + case['kind'])(case)
 
     def run_names(self, case):
@@ -364,15 +390,35 @@ class C11(object):
         mod.MaxTime = 3
         outcome = 'returned'
         stage = 'construction'
+        made = [0]
+
+        def scratch():
+            # called after every declaration; acts once, after the drawn number of declarations
+            made[0] += 1
+            if case.get('scratch_model_after') is not None and made[0] == case['scratch_model_after'] + 1:
+                other = Model()
+                if case.get('scratch_objects'):
+                    oc = Country(other, 'ZZ', 'scratch', currency='ZZZ')
+                    for i_ in range(case['scratch_objects'] - 1):
+                        Sector(oc, 'S%d' % i_, 'scratch sector')
+                rec.count('decl.scratch_model_created_during_construction')
         try:
             with contextlib.redirect_stdout(io.StringIO()):
+                scratch()
                 ca = Country(mod, 'CA', 'Canada', currency='CAD')
+                scratch()
                 gov = ConsolidatedGovernment(ca, 'GOV', 'Gov')
+                scratch()
                 hh = Household(ca, 'HH', 'HH')
+                scratch()
                 bus = FixedMarginBusiness(ca, 'BUS', 'Bus')
+                scratch()
                 tf = TaxFlow(ca, 'TF', 'tf', taxrate=0.2)
+                scratch()
                 lab = Market(ca, 'LAB', 'lab')
+                scratch()
                 good = Market(ca, 'GOOD', 'good')
+                scratch()
                 gov.SetExogenous('DEM_GOOD', '[20.]*10')
                 for i in range(case['n_extra']):
                     Sector(ca, 'XTRA%d' % i, 'extra')
@@ -390,6 +436,7 @@ class C11(object):
                     Market(ca, 'WIDGET', 'no supplier')
                     hh.AddVariable('DEM_WIDGET', 'demand', '1.0')
                 elif which == 'two_suppliers':
+                    scratch()
                     s2 = Sector(ca, 'BUS2', 'second supplier')
                     s2.AddVariable('SUP_GOOD', 'supply', '')
                 elif which == 'two_suppliers_one_without_F':
@@ -397,7 +444,9 @@ class C11(object):
                     s2.AddVariable('SUP_GOOD', 'supply', '')
                     rec.count('decl.two_candidate_suppliers_one_built_without_F')
                 elif which in ('xflow_no_ext', 'xsupplier_no_ext'):
+                    scratch()
                     us = Country(mod, 'US', 'US', currency='USD')
+                    scratch()
                     gov2 = ConsolidatedGovernment(us, 'GOV', 'Gov')
                     hh2 = Household(us, 'HH', 'HH')
                     bus2 = FixedMarginBusiness(us, 'BUS', 'Bus')
